@@ -906,7 +906,30 @@ func rangeScanFacts() {
 		"the close of the result channel is deferred before the request is made")
 }
 
+// indexRegexFacts: the regular expression that parses a stored index key accepts an empty secondary key
+func indexRegexFacts() {
+	f := parse("server/secondary_indexes.go")
+	v := topVarValue(f, "regex")
+	txt := ""
+	if v != nil {
+		txt = squash(src(v))
+	} else {
+		// a constant, not a variable: look at the declaration text
+		for _, d := range f.Decls {
+			if g, ok := d.(*ast.GenDecl); ok {
+				t := squash(src(g))
+				if strings.HasPrefix(t, "const regex =") {
+					txt = t
+				}
+			}
+		}
+	}
+	add("secondaryIndexRegexAllowsEmptyKey", "Bool", boolLean(strings.Contains(txt, `"/[^/]+/([^" + secondaryIdxSeparator + "]*)" + secondaryIdxSeparator + "(.+)$"`)),
+		"server/secondary_indexes.go: regex", txt)
+}
+
 func moreFacts() {
+	indexRegexFacts()
 	newTermSyncFacts()
 	streamFacts()
 	rangeScanFacts()
